@@ -25,7 +25,8 @@ BUDGET = {"quick": 240, "thorough": 3000}
 
 
 def bounds(tier):
-    return {"members": "0..2 over 9 contents (all), 3 over a 4-content core", "name_styles": ["gnu", "bsd"],
+    return {"members": "0..2 over 9 contents (all), 3 over a 4-content core; plus one sparse archive whose first member is "
+                       "1000000001 bytes long (10-digit size field), histories to depth 2-3", "name_styles": ["gnu", "bsd"],
             "open_modes": ["shared fileobj", "filename"], "graph": "fixpoint",
             "tree_depth": {"quick": "2 (3 on the 2-member core)", "thorough": "3 (4 on the 2-member core)"}[tier],
             "seek_targets": "[0, size+1]"}
@@ -72,10 +73,13 @@ def units(tier, seed):
                 tree = 2 if tier == "quick" else 3
             out.append({"members": members, "style": style, "mode": mode, "tree": tree})
             k += 1
+    out.append({"big": True})
     return out
 
 
 def unit_cost(u, tier):
+    if u.get("big"):
+        return 40 ** 3
     n = len(u["members"])
     return (20 * max(n, 1)) ** u["tree"]
 
@@ -187,8 +191,157 @@ class Run(object):
         return tuple(x.tell() for x in self.refs)
 
 
+# ---------------------------------------------------------------- a member whose size needs all 10 header digits
+
+BIG = 1000000001          # odd: a pad byte follows
+
+
+class Sparse(object):
+    """read-only file object over `segments` (offset -> bytes) with "\\n" everywhere else; harness-owned"""
+
+    def __init__(self, length, segments):
+        self.length, self.segments, self.pos = length, sorted(segments.items()), 0
+
+    def _bytes(self, a, b):
+        out = bytearray(b"\n" * (b - a))
+        for off, data in self.segments:
+            lo, hi = max(a, off), min(b, off + len(data))
+            if lo < hi:
+                out[lo - a:hi - a] = data[lo - off:hi - off]
+        return bytes(out)
+
+    def read(self, n=-1):
+        end = self.length if n is None or n < 0 else min(self.length, self.pos + n)
+        end = max(end, self.pos)
+        assert end - self.pos < (1 << 20), "harness: refusing to materialise %d bytes" % (end - self.pos)
+        data = self._bytes(self.pos, end)
+        self.pos = end
+        return data
+
+    def readline(self, n=-1):
+        limit = self.length if n is None or n < 0 else min(self.length, self.pos + n)
+        out = bytearray()
+        while self.pos < limit:
+            c = self._bytes(self.pos, self.pos + 1)
+            out += c
+            self.pos += 1
+            if c == b"\n":
+                break
+        return bytes(out)
+
+    def readlines(self):
+        out = []
+        while True:
+            l = self.readline()
+            if not l:
+                return out
+            out.append(l)
+
+    def seek(self, off, whence=0):
+        self.pos = max(0, {0: 0, 1: self.pos, 2: self.length}[whence] + off)
+        return self.pos
+
+    def tell(self):
+        return self.pos
+
+
+def big_archive():
+    h1 = arwriter.header("big", BIG, 123456789012, 999999, 999999)
+    h2 = arwriter.header("b", 1, 0, 0, 0)
+    o1 = len(arwriter.MAGIC) + 60
+    o2 = o1 + BIG + 1 + 60
+    segs = {0: arwriter.MAGIC + h1, o1: b"beg", o1 + BIG - 3: b"end", o1 + BIG: b"\n" + h2, o2: b"q"}
+    under = Sparse(o2 + 1, segs)
+    refs = [Sparse(BIG, {0: b"beg", BIG - 3: b"end"}), Sparse(1, {0: b"q"})]
+    return under, refs
+
+
+def big_ops(mi):
+    S = (BIG, 1)[mi]
+    o = [("read", 1), ("read", 3), ("readline",), ("readline", 2), ("tell",), ("read",), ("readlines",), ("read", -1)]
+    for p in sorted({0, 1, S - 3, S - 1, S, S + 1}):
+        if p >= 0:
+            o.append(("seek", p))
+    o += [("seek", 1, 1), ("seek", -1, 1), ("seek", 0, 2), ("seek", -3, 2), ("seek", 1, 2)]
+    return o
+
+
+def run_big_history(hist):
+    """-> (violation or None, executed?)"""
+    from debian.arfile import ArFile
+    under, refs = big_archive()
+    try:
+        ar = ArFile(fileobj=under)
+        ms = ar.getmembers()
+        got = [(m.name, m.size, m.mtime, m.owner, m.group) for m in ms]
+    except Exception as e:
+        return ("ar/big/open-raises", "archive with a 10-digit member size is indexed", "%s: %s" % (type(e).__name__, e)), True
+    want = [("big", BIG, 123456789012, 999999, 999999), ("b", 1, 0, 0, 0)]
+    if got != want:
+        return ("ar/big/meta", want, got), True
+    for mi, op in hist:
+        m, r = ms[mi], refs[mi]
+        size = (BIG, 1)[mi]
+        if op[0] == "seek":
+            base = {0: 0, 1: r.tell(), 2: size}[op[2] if len(op) > 2 else 0]
+            if not 0 <= base + op[1] <= size + 1:
+                return None, False
+        if op[0] in ("read", "readlines") and (len(op) == 1 or op[1] < 0) and size - r.tell() > 16:
+            return None, False            # would materialise a gigabyte
+        if op[0] == "readline" and size - r.tell() > 16 and r.tell() > 4:
+            pass                          # the fill is newlines: a line is one byte long
+        try:
+            if op[0] == "seek":
+                m.seek(*op[1:])
+                r.seek(*op[1:])
+                g = w = None
+            else:
+                w = getattr(r, op[0])(*op[1:])
+                g = getattr(m, op[0])(*op[1:])
+        except Exception as e:
+            return ("ar/big/%s/raises" % op[0], "no exception", "%s: %s" % (type(e).__name__, e)), True
+        if g != w:
+            return ("ar/big/%s/result" % op[0], w, g), True
+        if [x.tell() for x in ms] != [x.tell() for x in refs]:
+            return ("ar/big/%s/cursor" % op[0], [x.tell() for x in refs], [x.tell() for x in ms]), True
+    return None, True
+
+
+def run_big(part, depth):
+    allops = [(mi, op) for mi in (0, 1) for op in big_ops(mi)]
+
+    def rec(hist):
+        for step in allops:
+            h2 = hist + [step]
+            bad, ran = run_big_history(h2)
+            if not ran:
+                continue
+            part.transitions += 1
+            part.evaluations += 1
+            case = {"big": True, "history": h2}
+            if bad:
+                part.violation(bad[0], case, bad[1], bad[2], rank=len(h2))
+                continue
+            part.outcomes["big/" + step[1][0]] += 1
+            if len(h2) < depth:
+                rec(h2)
+            else:
+                part.traces += 1
+    bad, _ = run_big_history([])
+    part.states += 1
+    if bad:
+        part.violation(bad[0], {"big": True, "history": []}, bad[1], bad[2])
+        return part
+    rec([])
+    part.nontrivial += 1
+    part.sample({"big": True, "history": [(0, ("seek", BIG - 3)), (0, ("read", 10))]})
+    return part
+
+
 def run_unit(u, tier, seed):
     part = core.Part()
+    if u.get("big"):
+        return run_big(part, 2 if tier == "quick" else 3)
     members, style, mode = u["members"], u["style"], u["mode"]
     n = len(members)
     path = None
@@ -277,6 +430,9 @@ def run_unit(u, tier, seed):
 
 
 def replay(case):
+    if case.get("big"):
+        bad, _ = run_big_history([(mi, tuple(op)) for mi, op in case["history"]])
+        return [bad] if bad else []
     r = Run([tuple(m) for m in case["members"]], case["style"], case["mode"])
     try:
         bad = r.meta()
